@@ -367,6 +367,12 @@ void vs_idle(void)
   do_call(t, c);
 }
 int vs_self(void) { return cur_tid; }
+int vs_pending(int t, int* idx)                    // 0 idle, 1 lock, 2 trylock, 3 unlock, 4 condwait, 5 signal, ... (enum C_*)
+{
+  if(t < 0 || t >= VS_MAXT) return -1;
+  if(idx) *idx = pend[t].a;
+  return pend[t].kind;
+}
 long long vs_now(void) { return S.now; }
 
 int vs_enabled(int t)
